@@ -22,6 +22,16 @@ The index-entry arithmetic of the model (v2 decode/encode, v1 entry byte counts)
 generated from the Python source (translator/specs/compact_fmt.py -> gen/Gen_compact_fmt.v) and Bundle_proofs.v
 proves what it has to be, so an edited shift or mask breaks a proof.
 
+Write errors and concurrency (oracle only, no model comparison): (1) the last store of a history and the
+defragmentation are repeated from the same state with an injected ENOSPC at EVERY raw write(2) below Python's
+buffer layer (once / disk full from then on / appended bytes cut short; in-place index and header writes are never
+torn - assumption A1); afterwards every index entry must be valid, every address must return its previous tile or a
+complete tile of the failed batch, the cache must keep working, a failed defragmentation must change no address and
+grow no file, and neither may the next undisturbed one.  (2) Two threads with their own cache objects, gated at
+ensure_directory / the index update: two writers creating one v2 bundle (two schedules), and for v1 a reader that
+creates the data file while a writer stores (after remove_tile created the index only).  The model side of (1) for v2
+is a theorem: v2_failed_store_leaves_valid_bundle (every prefix of the store's writes), with the opposite order refuted.
+
 Oracle (independent of the model, on the real bytes after EVERY operation): every index entry is empty or points
 at a complete record inside the file whose recorded size matches; live records are pairwise disjoint and lie
 behind the fixed part; header file-size field = file length; header max-record-size >= every live record; the
@@ -57,7 +67,7 @@ LEVEL_TEXT = ('Theorems over a byte-level Gallina model of BundleV1/BundleIndexV
 LEVEL_NOTE = ('Trusted: Coq kernel, hand-written model Bundle.v, this harness and its independent reader.  Guards in the '
               'theorems (= what the formats can represent): tile size < 2^24 (v2) / < 2^32 (v1), data file < 2^40 bytes; '
               'beyond them an offset no longer fits its 40 bits (v2 adds it into the size bits, v1 truncates it) - no theorem or refutation witness is given for that range.  Not modelled: partial '
-              'effects of a store that raises, FileLock (C07), write_atomic / crash states (C06), permissions, dry_run, '
+              'effects of a v1 store that raises (v2: proved for every prefix of its writes), FileLock (C07), write_atomic / crash states (C06), permissions, dry_run, '
               'the float rounding of the threshold test (theorems hold for ANY skip decision; the correspondence uses '
               'thresholds away from rounding boundaries), stale tmp_defrag files of an interrupted earlier defrag run, '
               'bundle files whose names the glob R????C????.bundle does not match (column/row >= 65536 are never '
@@ -768,7 +778,7 @@ def run_race_case(ctx, version, variant, label):
     cache_dir = os.path.join(d, 'cache')
     real = Real(version, cache_dir)
     A, B = (5, 7, 3), (6, 7, 3)
-    da, db = bytes([65]) * 3000, bytes([66]) * 2000
+    da, db = bytes([65]) * 30000, bytes([66]) * 20000     # larger than the 8 KiB buffer: the append reaches the file at once
     WAIT = 10
     ev = {n: threading.Event() for n in ('w2_checked', 'w1_appended', 'w2_init_done')}
     who = {}
